@@ -83,7 +83,7 @@ end trig
 theorem trigPut_cases (s : PosStore) :
     (s.trigPut = s ∧ (s.putQ = [] ∨ s.admits = false)) ∨
     (∃ t q, s.putQ = t :: q ∧ s.admits = true ∧
-      s.trigPut = { s with putQ := q, putRes := s.putRes ++ [t], fired := s.fired ++ [t.id] }) := by
+      s.trigPut = { s with putQ := q, putRes := s.putRes ++ [t], fired := s.fired ++ [(t.id, s.now)] }) := by
   unfold trigPut
   split
   · left; simp_all
@@ -96,7 +96,7 @@ theorem trigGet_cases (s : PosStore) :
     (s.trigGet = s ∧ (s.getQ = [] ∨ ∃ t q, s.getQ = t :: q ∧ s.serves t = false)) ∨
     (∃ t q, s.getQ = t :: q ∧ s.serves t = true ∧
       s.trigGet = { s with getQ := q, getRes := s.getRes ++ [t], resEv := s.resEv ++ [t],
-                           fired := s.fired ++ [t.id],
+                           fired := s.fired ++ [(t.id, s.now)],
                            everRes := s.everRes ++ (s.items.drop s.resEv.length).head?.toList.map (·.seq) }) := by
   unfold trigGet
   split
